@@ -170,7 +170,11 @@ Definition exec (st : store) (o : op) : store * pv :=
       | Ok a, Ok b => match seq_add a b with Ok c => (putS st s3 c, PNone) | Err e => (st, PErr e) end
       | _, _ => (st, PErr ENotImpl)
       end
-  | SCopy s s' => match getS st s with Ok x => (putS st s' x, PNone) | Err er => (st, PErr er) end
+  | SCopy s s' =>          (* Sequence.copy() copies data, sequencing and settings - not the name *)
+      match getS st s with
+      | Ok x => (putS st s' (mkSeq (sdata x) (sseq x) (sspecs x) []), PNone)
+      | Err er => (st, PErr er)
+      end
   | SFromJson s s' =>
       match getS st s with
       | Ok x => match (do d <- seq_descr x; seq_from_descr (json_rt d)) with
